@@ -81,6 +81,8 @@ type ingPs struct {
 	// frame follows that frame's in the same PES payload, under the one PES header and PTS; the payload of the
 	// whole group is cut into the head entry's M PES packets.  Every other field of a riding entry is unused.
 	Ride bool `json:"ride"`
+	// Pph: a pack header in front of every PES of the frame (the access unit is spread over several packs)
+	Pph bool `json:"pph"`
 }
 
 type ingScenario struct {
@@ -901,6 +903,13 @@ func ingPsPackets(sc *ingScenario) [][]byte {
 			parts = proj.EvenCut(es, m)
 		}
 		for i, part := range parts {
+			if pf.Pph && i > 0 {
+				scr := t
+				if dts >= 0 {
+					scr = uint64(dts)
+				}
+				b = append(b, proj.PsPackHeader(scr, pf.F%3)...)
+			}
 			if i == 0 || pf.Pall {
 				b = append(b, proj.PsPesPd(sid, int64(t), dts, part)...)
 			} else {
